@@ -1234,7 +1234,11 @@ def reset_programs(api, rng, n):
         ro = bytes([0x90]) + ro[1:]
         # injected failures are bus failures: over SPI an index may hit a chip-select pin call, which the property does not cover
         ctor = 'i2c' if any(c.faults for c in hist) else rng.choice(['i2c', 'spi'])
-        a = Prog('ra%d' % k, ctor, hist + [Call('soft_reset')] + follow, ro, b'', pos, neg)
+        reset_call = Call('soft_reset')
+        if rng.random() < 0.3:
+            reset_call = Call('soft_reset', faults=[rng.choice([0, 1])])     # a reset whose bus transaction fails must not report Ok
+            ctor = 'i2c'
+        a = Prog('ra%d' % k, ctor, hist + [reset_call] + follow, ro, b'', pos, neg)
         b = Prog('rb%d' % k, ctor, follow, ro, b'', pos, neg)
         a.n_hist, a.twin = len(hist) + 1, b
         out += [a, b]
